@@ -65,6 +65,8 @@ AllCfgs == {[mode |-> m, rtn |-> n, rt |-> Ty(n), bcls |-> b, ocls |-> o,
               m \in {"callback", "extern"}, n \in RtNames, b \in BodyClasses,
               h \in BOOLEAN, o \in OnerrClasses}
 MCCfgs == {c \in AllCfgs : ~(c.rtn = "void" /\ c.haserr)}
+\* a slice of the product, enough to reject the broken variants quickly
+SmallCfgs == {c \in MCCfgs : c.rtn \in {"i8", "u16", "sA"}}
 
 \* expected classification of the case at this scale, for the replayer's cross-check
 Kind(c) == IF c.body = "ret" /\ ConvRes(c.rt, c.retv).ok THEN "result"
